@@ -87,12 +87,16 @@ def forced_conditionals(sampler, f_assignments=None, max_outputs=14):
             state["p"] = state["p"] * np.nan_to_num(contrib)
             return jnp.array(bits)
 
+        # the real sample_program runs with the jitted wrapper of the autoregressive loop replaced by the python
+        # function it wraps, so that bernoulli sees concrete probabilities; `evaluate` stays jitted
         jax.random.bernoulli = fake
+        jit_orig = S._sample_component_jit
+        S._sample_component_jit = S._sample_component
         try:
-            with jax.disable_jit():
-                out = np.asarray(S.sample_program(prog, f_params, jax.random.key(0)))
+            out = np.asarray(S.sample_program(prog, f_params, jax.random.key(0)))
         finally:
             jax.random.bernoulli = orig
+            S._sample_component_jit = jit_orig
         if nout and not (out == outs).all():
             raise AssertionError("sample_program did not return the forced outcomes in program order")
         res[tuple(int(x) for x in f)] = (state["p"].copy(), state["bad"])
